@@ -111,7 +111,13 @@ FUNCS = {
         # a refusal names a transfer that was started and is not yet finished; anything else is rejected
         raises={'RejectError': dict(when='not self._in_sess or not contains(self._tx_map, transfer_id) or '
                                          'in_pend(self, lookup(self._tx_map, transfer_id))',
-                                    iff=True, attrs={'reason': '3'}, modifies=[])},
+                                    iff=True, attrs={'reason': '3'},
+                                    modifies=['ContactHandler._tx_map', 'ContactHandler._tx_pend_ack'],
+                                    ensures=[('rejected_refusal_changes_nothing',
+                                              'self._tx_map == old(self._tx_map) and '
+                                              'self._tx_pend_ack == old(self._tx_pend_ack) and '
+                                              'self._tx_pend_start == old(self._tx_pend_start) and '
+                                              'eqv(self._tx_tmp, old(self._tx_tmp))', ['C17', 'C18'])])},
         # the refused transfer is over on the wire as well: the output automaton may start the next one
         ghost_exit=['ghost.cur_xid = ite(eqv(ghost.cur_xid, transfer_id), None, ghost.cur_xid)'],
         modifies=['ContactHandler._tx_pend_ack', 'ContactHandler._tx_map', 'ContactHandler._tx_tmp',
